@@ -66,3 +66,230 @@ pub fn render(i: &Item) -> String {
         Item::Float(b, FW::F64) => format!("{:e}", f64::from_bits(*b)),
     }
 }
+
+/// What the documented display says about an arbitrary byte string.
+#[derive(Debug, Clone, PartialEq, Eq)]
+pub struct Diag {
+    /// the notation of everything before the first problem (the complete notation if there is none)
+    pub prefix: String,
+    /// a decoding problem is reached: "the error message becomes part of the display", introduced by ` !!! `
+    pub problem: bool,
+    /// the input is malformed in a way the token-level display is not documented to notice (a break or a foreign chunk
+    /// where an item is expected, a two-byte simple value below 32): only `prefix` up to that point is judged
+    pub unjudged: bool,
+}
+
+enum Stop {
+    /// a decoding problem the display reports inline
+    Problem,
+    /// the input ends inside a token: "the Iterator implementation calls Tokenizer::token until end of input has been
+    /// reached" - the token stream simply ends (a problem only if a container is still open)
+    End,
+    Unjudged,
+}
+
+struct Head {
+    major: u8,
+    ai: u8,
+    arg: u64,
+    next: usize,
+}
+
+fn head(b: &[u8], pos: usize) -> Result<Head, Stop> {
+    let Some(&x) = b.get(pos) else { return Err(Stop::End) };
+    let (major, ai) = (x >> 5, x & 0x1f);
+    let extra = match ai {
+        0..=23 | 31 => 0,
+        24 => 1,
+        25 => 2,
+        26 => 4,
+        27 => 8,
+        _ => return Err(Stop::Problem),
+    };
+    if b.len() - pos - 1 < extra {
+        return Err(Stop::End);
+    }
+    let mut arg = ai as u64;
+    if extra > 0 {
+        arg = 0;
+        for k in 0..extra {
+            arg = arg << 8 | b[pos + 1 + k] as u64;
+        }
+    }
+    if ai == 31 && matches!(major, 0 | 1 | 6) {
+        return Err(Stop::Problem);
+    }
+    Ok(Head { major, ai, arg, next: pos + 1 + extra })
+}
+
+/// Is the next token (head, plus payload for definite strings) lexically complete?
+fn token_ok(b: &[u8], pos: usize) -> bool {
+    match head(b, pos) {
+        Err(_) => false,
+        Ok(h) if (h.major == 2 || h.major == 3) && h.ai != 31 => {
+            let rest = (b.len() - h.next) as u64;
+            h.arg <= rest && (h.major == 2 || std::str::from_utf8(&b[h.next..h.next + h.arg as usize]).is_ok())
+        }
+        Ok(_) => true,
+    }
+}
+
+fn nested(b: &[u8], pos: usize, out: &mut String) -> Result<usize, Stop> {
+    match diag_item(b, pos, out) {
+        Err(Stop::End) => Err(Stop::Problem),
+        r => r,
+    }
+}
+
+fn diag_item(b: &[u8], pos: usize, out: &mut String) -> Result<usize, Stop> {
+    let h = head(b, pos)?;
+    let mut p = h.next;
+    match h.major {
+        0 => out.push_str(&format!("{}", h.arg)),
+        1 => out.push_str(&format!("{}", -1 - h.arg as i128)),
+        2 | 3 if h.ai != 31 => {
+            if h.arg > (b.len() - p) as u64 {
+                return Err(Stop::End);
+            }
+            if !token_ok(b, pos) {
+                return Err(Stop::Problem);
+            }
+            let s = &b[p..p + h.arg as usize];
+            out.push_str(&if h.major == 2 { format!("h'{}'", hex_spaced(s)) } else { text(s) });
+            p += h.arg as usize;
+        }
+        2 | 3 => {
+            if b.get(p) == Some(&0xff) {
+                out.push_str(if h.major == 2 { "''_" } else { "\"\"_" });
+                return Ok(p + 1);
+            }
+            out.push_str("(_ ");
+            let mut first = true;
+            loop {
+                if p == b.len() {
+                    return Err(Stop::Problem);
+                }
+                if b[p] == 0xff {
+                    out.push(')');
+                    p += 1;
+                    break;
+                }
+                if !token_ok(b, p) {
+                    return Err(Stop::Problem);
+                }
+                let Ok(c) = head(b, p) else { return Err(Stop::Problem) };
+                if c.major != h.major || c.ai == 31 {
+                    return Err(Stop::Unjudged);
+                }
+                if !first {
+                    out.push_str(", ");
+                }
+                first = false;
+                p = nested(b, p, out)?;
+            }
+        }
+        4 if h.ai != 31 => {
+            out.push('[');
+            for i in 0..h.arg {
+                if i > 0 {
+                    out.push_str(", ");
+                }
+                p = nested(b, p, out)?;
+            }
+            out.push(']');
+        }
+        4 => {
+            out.push_str("[_ ");
+            let mut first = true;
+            loop {
+                if p == b.len() {
+                    return Err(Stop::Problem);
+                }
+                if b[p] == 0xff {
+                    out.push(']');
+                    p += 1;
+                    break;
+                }
+                if !first {
+                    if !token_ok(b, p) {
+                        return Err(Stop::Problem);
+                    }
+                    out.push_str(", ");
+                }
+                first = false;
+                p = nested(b, p, out)?;
+            }
+        }
+        5 if h.ai != 31 => {
+            out.push('{');
+            for i in 0..h.arg {
+                if i > 0 {
+                    out.push_str(", ");
+                }
+                p = nested(b, p, out)?;
+                out.push_str(": ");
+                p = nested(b, p, out)?;
+            }
+            out.push('}');
+        }
+        5 => {
+            out.push_str("{_ ");
+            let mut first = true;
+            loop {
+                if p == b.len() {
+                    return Err(Stop::Problem);
+                }
+                if b[p] == 0xff {
+                    out.push('}');
+                    p += 1;
+                    break;
+                }
+                if !first {
+                    if !token_ok(b, p) {
+                        return Err(Stop::Problem);
+                    }
+                    out.push_str(", ");
+                }
+                first = false;
+                p = nested(b, p, out)?;
+                out.push_str(": ");
+                p = nested(b, p, out)?;
+            }
+        }
+        6 => {
+            out.push_str(&format!("{}(", h.arg));
+            p = nested(b, p, out)?;
+            out.push(')');
+        }
+        _ => match h.ai {
+            20 => out.push_str("false"),
+            21 => out.push_str("true"),
+            22 => out.push_str("null"),
+            23 => out.push_str("undefined"),
+            0..=19 => out.push_str(&format!("simple({})", h.arg)),
+            24 if h.arg < 32 => return Err(Stop::Unjudged),
+            24 => out.push_str(&format!("simple({})", h.arg)),
+            25 => out.push_str(&format!("{:e}", f32::from_bits(f16_to_f32(h.arg as u16)))),
+            26 => out.push_str(&format!("{:e}", f32::from_bits(h.arg as u32))),
+            27 => out.push_str(&format!("{:e}", f64::from_bits(h.arg))),
+            _ => return Err(Stop::Unjudged), // a break where an item is expected
+        },
+    }
+    Ok(p)
+}
+
+/// The documented display of an arbitrary byte string: the notation of the items in order (no separator between
+/// top-level items) up to the first decoding problem.
+pub fn diag_bytes(b: &[u8]) -> Diag {
+    let mut out = String::new();
+    let mut p = 0;
+    while p < b.len() {
+        match diag_item(b, p, &mut out) {
+            Ok(n) => p = n,
+            Err(Stop::Problem) => return Diag { prefix: out, problem: true, unjudged: false },
+            Err(Stop::End) => return Diag { prefix: out, problem: false, unjudged: false },
+            Err(Stop::Unjudged) => return Diag { prefix: out, problem: false, unjudged: true },
+        }
+    }
+    Diag { prefix: out, problem: false, unjudged: false }
+}
